@@ -20,6 +20,7 @@ ASSUMPTIONS = [
     "range rule in the weakest reading: a value is inside the range when its engineering exponent 3*floor(e/3) lies within the prefix table in force (|e3| <= 15 without prefixes); inside -> must be finite and accurate; outside -> infinity sign or a still-accurate finite number",
     "a mantissa that renders as 1000 after a rounding carry is accepted (counted)",
     "a complex part may be suppressed only when it is exactly zero or below the representable range",
+    "print_active_reactive_power may omit a reactive power of at most 1e-4 var (the helper's noise floor, the counterpart of the 1e-4 rad / 0.01 degree floor for angles)",
 ]
 TABLES = {
     'none': None,
@@ -55,6 +56,12 @@ def generate(tier, seed, shard, nshards):
         else:
             ms = list(range(lo, hi))
         yield {'kind': 'float-exhaustive', 'p': p, 'decade': d, 'table': tname, 'mantissas': [ms[0], ms[-1], len(ms)], 'ms': ms}
+    # rounding-carry stratum: values just below a power of ten that round UP into the next decade at p digits, p = 1..9
+    cj = [(pp, d, tname) for pp in range(1, 10) for d in range(-15, 16) for tname in TABLES]
+    rng2.shuffle(cj)
+    for k, (pp, d, tname) in enumerate(cj):
+        if k % nshards == shard and (tier == 'thorough' or k % 3 == 0 or d in (-1, 0, 1)):
+            yield {'kind': 'float-carry', 'p': pp, 'decade': d, 'table': tname}
     n_rand = {'quick': 40, 'thorough': 900}[tier]
     for _ in range(n_rand // nshards + 1):
         yield {'kind': 'float-random', 'p': rng.randint(1, 6), 'table': rng.choice(list(TABLES)), 'seed': rng.getrandbits(32)}
@@ -90,11 +97,13 @@ def judge_real(ctx, prefix, text, value, p, unit, tbl, where, use_prefix=True):
     def inside(ee):
         e3 = 3 * math.floor(ee / 3)
         return lo <= e3 <= hi
-    ins, ins_r = inside(e), inside(e_r)
+    # a value within the comparison slack of a rounding tie may legitimately be rounded either way: the carry outcome counts too
+    ins, ins_r = inside(e), inside(e_r) and inside((rounded + abs(d) * Decimal('1e-12')).adjusted())
     if pr.infinite:
         if ins and ins_r:
             # classify the mechanism: the library compares the exponent of the p-digit INTEGER mantissa (e - p + 1) with the largest prefix
-            mech = 'integer-mantissa-exponent-above-largest-prefix' if (e_r - p + 1) > hi else 'other'
+            e_c = (rounded + abs(d) * Decimal('1e-12')).adjusted()      # at a rounding tie the library may have carried
+            mech = 'integer-mantissa-exponent-above-largest-prefix' if (max(e_r, e_c) - p + 1) > hi else 'other'
             ctx.violation(f'{prefix}/inside-range-rendered-infinite/{mech}',
                           f'{value!r} (p={p}, prefixes={tbl if use_prefix else None!r}) rendered as {text!r} although its engineering exponent {3 * math.floor(e / 3)} is representable', {})
             return False
@@ -147,6 +156,23 @@ def judge(case, ctx, prefix='C18'):
         ctx.evaluated(repr((p, dcd, tname)), True)
         if p == 1 and dcd in (0, 3):
             ctx.sample({'p': p, 'decade': dcd, 'table': tname, 'example': str(render_float(float(f'{case["ms"][0]}e{dcd}'), p, 'V', tbl))})
+        return
+    if k == 'float-carry':
+        p, dcd, tname = case['p'], case['decade'], case['table']
+        tbl = TABLES[tname]
+        vals = []
+        for extra in (1, 2, 3, 6):                                  # 0.99..9 x 10^(dcd+1) with p+extra nines: rounds up to 10^(dcd+1)
+            vals.append(float(f'{"9" * (p + extra)}e{dcd + 1 - p - extra}'))
+        tie = float(f'{"9" * p}5e{dcd - p}')                          # the rounding tie itself and its binary neighbours
+        vals += [tie, float(np.nextafter(tie, math.inf)), float(np.nextafter(tie, -math.inf))]
+        vals.append(float(f'{"9" * p}4e{dcd - p}'))                   # just below the tie: must NOT carry
+        one = float(f'1e{dcd + 1}')
+        vals += [float(np.nextafter(one, -math.inf)), one]
+        for v in vals:
+            for sg in (1, -1):
+                judge_real(ctx, prefix, render_float(sg * v, p, 'V', tbl), sg * v, p, 'V', tbl, 'float', tbl is not None)
+                ctx.count('carry_values_judged')
+        ctx.evaluated(repr(('carry', p, dcd, tname)), True)
         return
     rng = random.Random(case['seed'])
     p, tname = case['p'], case.get('table', 'none')
@@ -351,6 +377,29 @@ def judge_display(case, ctx, prefix, rng, p):
             ctx.violation(f'{prefix}/print_active_power/direction', f'{x!r} rendered as {pw!r}', {})
         else:
             judge_real(ctx, prefix, pw[:-1], abs(x), p, 'W', T['default'], 'print_active_power')
+        # active/reactive power label: 'P: <arrow><P>' and, unless |Q| is at most the helper's 1e-4 var noise floor, a second line 'Q: <arrow><Q>'
+        s_ = z if rng.random() < 0.7 else complex(z.real, rng.choice([1, -1]) * 10 ** rng.uniform(-6, -2))
+        pq = call(dsp.print_active_reactive_power, s_, p)
+        ctx.count('active_reactive_labels_judged')
+        if raised(pq):
+            ctx.violation(f'{prefix}/print_active_reactive_power/raised/{pq.key}', f'{s_!r} raised {pq.text}', {})
+        else:
+            lines = pq.split('\n')
+            okf = lines[0].startswith('P: ') and len(lines[0]) > 4 and lines[0][3] in '↓↑' and len(lines) <= 2 and (len(lines) == 1 or (lines[1].startswith('Q: ') and len(lines[1]) > 4 and lines[1][3] in '↓↑'))
+            if not okf:
+                ctx.violation(f'{prefix}/print_active_reactive_power/format', f'{s_!r} rendered as {pq!r}', {})
+            else:
+                if (lines[0][3] == '↓') != (s_.real > 0):
+                    ctx.violation(f'{prefix}/print_active_reactive_power/direction/active', f'{s_!r} rendered as {pq!r}', {})
+                else:
+                    judge_real(ctx, prefix, lines[0][4:], abs(s_.real), p, 'W', T['default'], 'print_active_reactive_power/active')
+                if len(lines) == 1:
+                    if abs(s_.imag) > 1e-4 * (1 + 1e-9):
+                        ctx.violation(f'{prefix}/print_active_reactive_power/reactive-part-missing', f'{s_!r} rendered as {pq!r}: Q = {s_.imag!r} var is not shown', {})
+                elif (lines[1][3] == '↓') != (s_.imag > 0):
+                    ctx.violation(f'{prefix}/print_active_reactive_power/direction/reactive', f'{s_!r} rendered as {pq!r}', {})
+                else:
+                    judge_real(ctx, prefix, lines[1][4:], abs(s_.imag), p, 'var', T['default'], 'print_active_reactive_power/reactive')
         w = rng.choice([0.0, 10 ** rng.uniform(-1, 5)])
         sin, dg, hz = rng.random() < 0.5, rng.random() < 0.5, rng.random() < 0.5
         judge_sinusoid_text(ctx, prefix, call(dsp.print_sinosoidal, z, 'V', p, w, sin, dg, hz), z, 'V', p, w, sin, dg, hz, 'print_sinosoidal')
